@@ -55,33 +55,6 @@ func (s *stdSvc) gSenderVia(rt *rapid.T, g stdIngress, fromPort int) AVia {
 	return v
 }
 
-// stampModel: the sender's entry as the statement says it must leave the proxy.
-func stampModel(v AVia, on bool, srcIP string, srcPort int) AVia {
-	if !on {
-		return v
-	}
-	out := v
-	out.Params = nil
-	hadRcv := false
-	for _, p := range v.Params {
-		switch p.K {
-		case "received":
-			if hadRcv {
-				continue
-			}
-			hadRcv = true
-			p.V, p.HasV = srcIP, true
-		case "rport":
-			p.V, p.HasV = strconv.Itoa(srcPort), true
-		}
-		out.Params = append(out.Params, p)
-	}
-	if !hadRcv {
-		out.Params = append(out.Params, AParam{K: "received", V: srcIP, HasV: true})
-	}
-	return out
-}
-
 func TestC07(t *testing.T) {
 	V.Rule("lab (services started from generated YAML text, no-received absent / false / true per listen entry): requests from user agents at distinct loopback addresses over UDP (from port 5060 or 6010) and over accepted TCP connections, and requests a TCP backend sends over the connection the proxy opened to it; the sender's top Via names its own or another endpoint, an alias or a foreign host, with rport absent / valueless / pre-filled with a wrong port, received absent / spoofed, further parameters around them, more Via entries beneath, laid out in any way; plus bursts of 2-40 requests sent back to back from several source sockets (each must be stamped with its own source). Oracle at the next hop: sender's entry = as sent with received=<source IP> (exactly one) and rport=<source port> iff rport was present; every other parameter and entry textually untouched; with received-support off the entry is textually the one sent. Then the backend answers and the response must arrive at (source IP, source port) if rport was requested, (source IP, sent-by port) otherwise, at the sent-by/received address as written when support is off, on the same connection for TCP. non-trivial = spoofed received or pre-filled rport, or sent-by different from the source; distinct by (instance, ingress, sender Via)")
 	V.Require("engine:bin (real binary)", "support:on", "support:off", "ingress:udp", "ingress:tcp-accepted", "ingress:tcp-outbound-to-backend", "spoofed received", "pre-filled rport", "valueless rport", "no rport", "sent-by is another endpoint", "response returned to true source", "burst: >=2 sources interleaved")
